@@ -383,6 +383,7 @@ type c01PingCase struct {
 	N       int            `json:"n"`
 	V6      []bool         `json:"v6"`
 	Replies []c01PingReply `json:"replies"`
+	Stall   bool           `json:"stall,omitempty"` // the pings are held inside the connection's WriteTo while the replies are parsed
 }
 
 // echoFrame builds an ICMP echo frame from a client to our host.
@@ -404,6 +405,53 @@ func c01RunPings(tb drv.TB, rec *drv.Rec, sub string, c c01PingCase) {
 	w := gen.DefaultWorld()
 	s, conn := newSession(defaultNIC())
 	defer closeSession(s)
+	if c.Stall {
+		// The transmit path is stalled: every ping sits inside the connection's WriteTo. Parse of echo replies (of any
+		// identifier) must still return: it is the packet loop. The writes are released only after Parse came back or
+		// 3 s passed, so the verdict does not depend on timing.
+		release := conn.setStall()
+		defer release()
+		started := make(chan struct{}, c.N)
+		for i := 0; i < c.N; i++ {
+			v6 := c.V6[i]
+			go func() {
+				defer func() { recover() }()
+				started <- struct{}{}
+				if v6 {
+					s.Ping6(packet.Addr{MAC: hw(w.HostMAC), IP: w.HostLLA}, packet.Addr{MAC: hw(w.Clients[0]), IP: netip.MustParseAddr("fe80::aa")}, 250*time.Millisecond)
+				} else {
+					s.Ping(packet.Addr{MAC: hw(w.Clients[0]), IP: netip.MustParseAddr("192.168.0.5")}, 250*time.Millisecond)
+				}
+			}()
+		}
+		for i := 0; i < c.N; i++ {
+			<-started
+		}
+		time.Sleep(2 * time.Millisecond) // let the pings reach the write
+		parsed := make(chan struct{})
+		go func() {
+			defer close(parsed)
+			buf := make([]byte, packet.EthMaxSize)
+			for _, v6 := range []bool{false, true} {
+				typ := byte(0)
+				if v6 {
+					typ = 129
+				}
+				n := copy(buf, echoFrame(w, v6, typ, 0xfff0))
+				drv.Catch(func() { s.Parse(buf[:n]) })
+			}
+		}()
+		select {
+		case <-parsed:
+		case <-time.After(3 * time.Second):
+			release()
+			rec.Violation(tb, sub, "parse-blocked-by-stalled-send", c, "Parse of an echo reply did not return within 3 s while %d pings were blocked inside the connection's WriteTo", c.N)
+			return
+		}
+		release()
+		rec.NonTrivial(drv.HashJSON(c), func() interface{} { return c })
+		return
+	}
 	done := make(chan struct{}, c.N)
 	for i := 0; i < c.N; i++ {
 		v6 := c.V6[i]
@@ -491,7 +539,7 @@ func TestC01(t *testing.T) {
 
 	// Parse of echo replies while pings are in flight (Parse wakes the waiter: shared state behind Parse)
 	drv.Prop(t, rec, "pending-pings", 150, 3000, func(t *rapid.T) c01PingCase {
-		c := c01PingCase{N: rapid.IntRange(1, 4).Draw(t, "npings")}
+		c := c01PingCase{N: rapid.IntRange(1, 4).Draw(t, "npings"), Stall: rapid.IntRange(0, 7).Draw(t, "stall") == 0}
 		for i := 0; i < c.N; i++ {
 			c.V6 = append(c.V6, rapid.Bool().Draw(t, "v6"))
 		}
